@@ -92,6 +92,14 @@ func c08a(c *Ctx) {
 	if plain == nil || table == nil {
 		return
 	}
+	// lines are written unconditionally inside their loops (nothing but the range test guards them)
+	uncond := func(w *writeSite) bool {
+		d := dropAtoms(c.PC(fn).At(w.call.Block()), func(a string) bool {
+			return strings.Contains(a, " < builtin:len(") || strings.Contains(a, ".Scope == ")
+		})
+		return dnfEquiv(d, mkDNF([]string{}))
+	}
+	c.Check(uncond(plain) && uncond(table), "header/lines-unconditional", pos, "every entry gets its header line, whatever the options", "a header line is written only under an extra condition (entries could be skipped)")
 	c.Check(noEarlyExit(c, fn, plain.call.Block()) && noEarlyExit(c, fn, table.call.Block()), "header/full-ranges", pos, "both header loops run over all entries", "a header loop can be left early")
 	c.Check(!canReach(table.call.(ssa.Instruction), plain.call.(ssa.Instruction)), "header/plain-before-tables", pos, "plain entries are listed before table entries", "table entries can be listed before plain entries")
 	// .byte 0
@@ -145,6 +153,7 @@ func c08a(c *Ctx) {
 	c.Check(argT(lbl[0], 0) == tbl+".Name", "tables/label", c.W.Pos(lbl[0].call.Pos()), "table label = the name the header refers to", "table label prints "+pretty(argT(lbl[0], 0))+", expected table.Name")
 	e, okE := ranged(argT(ent[0], 0), tbl+".Entries")
 	c.Check(okE && argT(ent[0], 0) == e+".Condition.Literal" && argT(ent[0], 1) == e+".Comparison" && argT(ent[0], 2) == e+".Name" && noEarlyExit(c, fn, ent[0].call.Block()), "tables/entry-line", c.W.Pos(ent[0].call.Pos()), "one 'map_script_2 cond, value, name' per entry of this table (all three from the same entry)", "entry lines are not (entry.Condition.Literal, entry.Comparison, entry.Name) over the full range of the table's own entries")
+	c.Check(uncond(&ent[0]) && uncond(&lbl[0]) && uncond(&tz[0]), "tables/lines-unconditional", c.W.Pos(ent[0].call.Pos()), "table label, every entry line and the terminator are written unconditionally", "a table line is written only under an extra condition (rows could be skipped, e.g. depending on line markers)")
 	lh := loopHeaders(fn)
 	outer := lh[lbl[0].call.Block()]
 	inner := lh[ent[0].call.Block()]
